@@ -263,6 +263,12 @@ impl Check for C19 {
     fn families(&self, _tier: Tier) -> Vec<&'static str> {
         vec!["schedule", "legal-faults", "legal-faults", "hard-faults"]
     }
+    fn default_runs(&self, tier: Tier) -> u64 {
+        match tier {
+            Tier::Quick => 2400,
+            Tier::Thorough => 150000,
+        }
+    }
     fn gen(&self, seed: u64, family: &str, tier: Tier) -> Case {
         let mut c = gen_batch_case("C19", seed, if family == "schedule" { "schedule" } else { "faults" }, tier, true);
         c.family = family.to_string();
